@@ -100,7 +100,7 @@ class C05(Prop):
     assumptions = ('ghost causality = the spec tree (a child belongs to the event whose handler fired it)',
                    'cancelled events never themselves request completion (what that should mean is not stated)',
                    'events that circuits fires internally (exception, *_failure) are effects too; they only delay completion')
-    budget = {'quick': (900, 4), 'thorough': (14000, 16)}
+    budget = {'quick': (900, 4), 'thorough': (10000, 16)}
 
     shrink_lists = {'roots': 1, 'handlers': 1, 'fire': 0, 'steps': 0}
 
